@@ -139,10 +139,21 @@ def run(ctx):
             obj = build(ptn, c)
             d0 = list(obj.bond_dims)
             tr = canon.record_canon(ptn, obj, 'mps', 'compress', c['mode'], tn, td)
+            # histories: the same object is modified by the user and compressed / orthonormalized again
+            hrng = np.random.default_rng(c['seed'] + 1)
+            for do_poke, mode2 in c.get('hist', []):
+                if tr[-1].get('ev') != 'end':
+                    break
+                if do_poke:
+                    canon.poke(obj, hrng, tr)
+                if hrng.random() < 0.7:
+                    tr += canon.record_canon(ptn, obj, 'mps', 'compress', mode2, tn, td)
+                else:
+                    tr += canon.record_canon(ptn, obj, 'mps', 'ortho', mode2)
         except BaseException as ex:  # noqa
             tr = [dict(ev='raise', exc=f'generator: {type(ex).__name__}: {str(ex)[:80]}')]
             d0 = []
-        add(c, tr, nontriv=bool(tr[-1].get('dims') and sum(tr[-1]['dims']) < sum(d0)))
+        add(c, tr, nontriv=bool(any(r.get('ev') == 'end' and sum(r['dims']) < sum(d0) for r in tr)))
     # ---- designed spectra
     pow4_sets = [[4, 4, 4, 4], [9, 4, 1, 1, 1], [4, 4, 4, 1, 1, 1, 1], [1, 1, 1, 1], [16], [36, 16, 4, 4, 4], [16, 16, 16, 16], [49, 9, 4, 1, 1]]
     other_sets = [[1], [1, 1], [1, 1, 1], [9, 4, 1], [16, 8, 4, 2, 1], [25, 16, 9, 4, 1], [100, 1, 1], [7, 7, 5, 3], [64, 16, 4, 1]]
